@@ -352,9 +352,12 @@ func runC13(e *Engine, r *Report) {
 	// header decode checks its own CRC
 	if dec := r.need("(*internal/transport.requestHeader).decode"); dec != nil {
 		okc := false
-		forEachCall(dec, func(s ssa.CallInstruction) {
-			if sc := s.Common().StaticCallee(); sc != nil && sc.Pkg != nil && sc.Pkg.Pkg.Path() == "hash/crc32" {
-				okc = true
+		// decode itself or a helper it (and encode) share
+		e.forEachInstrRegion(dec, 2, func(in ssa.Instruction) {
+			if s, ok := in.(ssa.CallInstruction); ok {
+				if sc := s.Common().StaticCallee(); sc != nil && sc.Pkg != nil && sc.Pkg.Pkg.Path() == "hash/crc32" {
+					okc = true
+				}
 			}
 		})
 		r.check(okc, "VAL-frame", "requestHeader.decode verifies the header checksum", e.pos(dec.Pos()), "header bytes are covered by a crc32", "requestHeader.decode no longer computes the header crc32")
